@@ -209,7 +209,7 @@ def ocaml_step():
         return False, out[-3000:]
     rc, out = sh('./build.sh', cwd=OCAML, timeout=1200)
     if rc != 0:
-        return False, out[-3000:]
+        raise MachineryError('extraction / OCaml driver build failed:\n' + out[-3000:])
     open(stamp, 'w').write(hsh)
     return True, 'rebuilt'
 
